@@ -64,22 +64,150 @@ def marker_writer(proj: Project, ev: Evaluator, hash_lang: AbsStr) -> Tuple[AbsS
     raise AnalysisError("anchor vanished: no COMPONENT_DEPS_COMMENT.format(...) writer")
 
 
+class ListElem:
+    """One element a list may hold: `expr`, the path condition under which it was added, and the conditions of later
+    re-assignments of the list that would have dropped it."""
+
+    def __init__(self, expr: ast.expr, cond: Tuple[Tuple[ast.expr, bool], ...], kills: Optional[List[Tuple[Tuple[ast.expr, bool], ...]]] = None, opaque: bool = False):
+        self.expr, self.cond, self.kills, self.opaque = expr, cond, list(kills or []), opaque
+
+
+def list_flow(f: ast.FunctionDef, upto: Optional[ast.AST] = None) -> Dict[str, Optional[List[ListElem]]]:
+    """Flow-sensitive contents of the local list variables of `f` (None = not understood), up to statement `upto`.
+    Understands `v = []`, list displays with `*other`, `[...] if c else [...]`, `.append(e)`, `.extend([...])`,
+    `v += [...]`, aliases `v = other` / `list(other)`, under if/else (conditions are kept per element)."""
+    state: Dict[str, Optional[List[ListElem]]] = {}
+    done = [False]
+
+    def ev(value: ast.expr, cond: Tuple[Tuple[ast.expr, bool], ...]) -> Optional[List[ListElem]]:
+        if isinstance(value, (ast.List, ast.Tuple)):
+            out: List[ListElem] = []
+            for e in value.elts:
+                if isinstance(e, ast.Starred):
+                    if isinstance(e.value, ast.Name) and state.get(e.value.id) is not None:
+                        out += [ListElem(x.expr, x.cond + cond, x.kills, x.opaque) for x in state[e.value.id]]  # type: ignore[union-attr]
+                    else:
+                        out.append(ListElem(e.value, cond, opaque=True))
+                else:
+                    out.append(ListElem(e, cond))
+            return out
+        if isinstance(value, ast.IfExp):
+            a, b = ev(value.body, cond + ((value.test, True),)), ev(value.orelse, cond + ((value.test, False),))
+            return None if a is None or b is None else a + b
+        if isinstance(value, ast.Name) and value.id in state:
+            src = state[value.id]
+            return None if src is None else [ListElem(x.expr, x.cond + cond, x.kills, x.opaque) for x in src]
+        if isinstance(value, ast.Call) and isinstance(value.func, ast.Name) and value.func.id == "list" and len(value.args) <= 1:
+            return ev(value.args[0], cond) if value.args else []
+        if isinstance(value, ast.BinOp) and isinstance(value.op, ast.Add):
+            a, b = ev(value.left, cond), ev(value.right, cond)
+            return None if a is None or b is None else a + b
+        if isinstance(value, ast.BoolOp) and isinstance(value.op, ast.Or) and len(value.values) == 2:
+            a, b = ev(value.values[0], cond + ((value.values[0], True),)), ev(value.values[1], cond + ((value.values[0], False),))
+            return None if a is None or b is None else a + b
+        if isinstance(value, ast.Name):
+            return [ListElem(value, cond, opaque=True)]
+        return None
+
+    def assign(name: str, value: ast.expr, cond: Tuple[Tuple[ast.expr, bool], ...]) -> None:
+        new = ev(value, cond)
+        old = state.get(name)
+        if new is None:
+            state[name] = None
+            return
+        if cond and old:
+            # conditional re-assignment: the old elements survive only where the condition is false
+            keep = [x for x in old if not any(x is y for y in new)]
+            for x in keep:
+                if not any(id(x.expr) == id(y.expr) for y in new):
+                    x.kills.append(cond)
+            state[name] = [x for x in keep if not any(id(x.expr) == id(y.expr) for y in new)] + new
+        else:
+            state[name] = new
+
+    def walk(block: List[ast.stmt], cond: Tuple[Tuple[ast.expr, bool], ...]) -> None:
+        for st in block:
+            if done[0]:
+                return
+            if upto is not None and st is upto:
+                done[0] = True
+                return
+            if isinstance(st, ast.Assign) and len(st.targets) == 1 and isinstance(st.targets[0], ast.Name):
+                looks = isinstance(st.value, (ast.List, ast.IfExp)) or st.targets[0].id in state or (isinstance(st.value, ast.Name) and st.value.id in state)
+                if looks:
+                    assign(st.targets[0].id, st.value, cond)
+            elif isinstance(st, ast.AnnAssign) and isinstance(st.target, ast.Name) and st.value is not None:
+                if isinstance(st.value, (ast.List, ast.IfExp)) or st.target.id in state:
+                    assign(st.target.id, st.value, cond)
+            elif isinstance(st, ast.AugAssign) and isinstance(st.target, ast.Name) and st.target.id in state and isinstance(st.op, ast.Add):
+                add = ev(st.value, cond)
+                cur = state[st.target.id]
+                state[st.target.id] = None if add is None or cur is None else cur + add
+            elif isinstance(st, ast.Expr) and isinstance(st.value, ast.Call) and isinstance(st.value.func, ast.Attribute) and isinstance(st.value.func.value, ast.Name) and st.value.func.value.id in state:
+                nm, meth = st.value.func.value.id, st.value.func.attr
+                cur = state[nm]
+                if cur is None:
+                    continue
+                if meth == "append" and len(st.value.args) == 1:
+                    cur.append(ListElem(st.value.args[0], cond))
+                elif meth == "extend" and len(st.value.args) == 1:
+                    add = ev(st.value.args[0], cond)
+                    state[nm] = None if add is None else cur + add
+                elif meth in ("insert",) and len(st.value.args) == 2:
+                    cur.append(ListElem(st.value.args[1], cond))
+                else:
+                    state[nm] = None
+            elif isinstance(st, ast.If):
+                walk(st.body, cond + ((st.test, True),))
+                walk(st.orelse, cond + ((st.test, False),))
+            elif isinstance(st, (ast.With, ast.Try)):
+                walk(st.body, cond)
+                if upto is not None and any(x is upto for x in ast.walk(st)):
+                    done[0] = True
+            elif isinstance(st, (ast.For, ast.While)):
+                for x in ast.walk(st):
+                    if isinstance(x, ast.Name) and isinstance(x.ctx, (ast.Store, ast.Del)) and x.id in state:
+                        state[x.id] = None
+                    if isinstance(x, ast.Call) and isinstance(x.func, ast.Attribute) and isinstance(x.func.value, ast.Name) and x.func.value.id in state and x.func.attr in ("append", "extend", "insert", "remove", "pop", "clear"):
+                        state[x.func.value.id] = None
+            if upto is not None and any(x is upto for x in ast.walk(st)):
+                done[0] = True
+                return
+
+    walk(f.body, ())
+    return state
+
+
+def root_attr_elems(proj: Project) -> Tuple[Module, ast.FunctionDef, ast.Call, Optional[List[ListElem]]]:
+    m, f = proj.func("dependencies", "set_component_attrs_for_js_and_css")
+    sh = calls(f, "set_html_attributes")
+    if not sh:
+        raise AnalysisError("anchor vanished: set_html_attributes(...) call in set_component_attrs_for_js_and_css")
+    arg = next((k.value for k in sh[0].keywords if k.arg == "root_attributes"), None)
+    if arg is None or not isinstance(arg, ast.Name):
+        raise AnalysisError("set_html_attributes(root_attributes=<name>) not found")
+    from ..source import enclosing_stmt
+
+    st = list_flow(f, upto=enclosing_stmt(sh[0]))
+    return m, f, sh[0], st.get(arg.id)
+
+
 def root_attr_shapes(proj: Project, ev: Evaluator) -> Tuple[List[Tuple[str, AbsStr]], str]:
     """Attribute names that set_component_attrs_for_js_and_css appends to the root-attribute list, in order."""
     m, f = proj.func("dependencies", "set_component_attrs_for_js_and_css")
     shapes: List[Tuple[str, AbsStr]] = []
-    sh = calls(f, "set_html_attributes")
-    lst = norm(next((k.value for c in sh for k in c.keywords if k.arg == "root_attributes"), ast.Name(id="all_root_attributes", ctx=ast.Load())))
-    for n in body_walk(f):
-        if isinstance(n, ast.Call) and isinstance(n.func, ast.Attribute) and n.func.attr == "append" and norm(n.func.value) == lst and n.args:
-            # `if <name>:` guards: inside, <name> is a non-empty string
-            env = {}
-            for test, pol in flatten_conj(path_conditions(n)):
-                if pol and isinstance(test, ast.Name):
-                    full = ev.eval(m, f, test)
-                    env[test.id] = [a for a in full if length_of(a)[1] != 0] or full
-            v = ev.eval(m, f, n.args[0], env)
-            shapes.append((norm(n.args[0]), [simplify(a) for a in v]))
+    _m, _f, _call, elems = root_attr_elems(proj)
+    for el in elems or []:
+        if el.opaque:
+            continue
+        # `if <name>:` guards: inside, <name> is a non-empty string
+        env = {}
+        for test, pol in flatten_conj(list(el.cond)):
+            if pol and isinstance(test, ast.Name):
+                full = ev.eval(m, f, test)
+                env[test.id] = [a for a in full if length_of(a)[1] != 0] or full
+        v = ev.eval(m, f, el.expr, env)
+        shapes.append((norm(el.expr), [simplify(a) for a in v]))
     if len(shapes) < 1:
         raise AnalysisError("anchor vanished: no all_root_attributes.append(...) in set_component_attrs_for_js_and_css")
     return shapes, m.loc(f)
